@@ -1051,6 +1051,7 @@ func (gt *Enum) Error() error {
 	return gt.err
 }
 func (gt *Enum) getValueLookup() map[interface{}]*EnumValueDefinition {
+	verifEvent("enum.values.check", gt)
 	if len(gt.valuesLookup) > 0 {
 		return gt.valuesLookup
 	}
@@ -1058,11 +1059,13 @@ func (gt *Enum) getValueLookup() map[interface{}]*EnumValueDefinition {
 	for _, value := range gt.Values() {
 		valuesLookup[value.Value] = value
 	}
+	verifEvent("enum.values.publish", gt)
 	gt.valuesLookup = valuesLookup
 	return gt.valuesLookup
 }
 
 func (gt *Enum) getNameLookup() map[string]*EnumValueDefinition {
+	verifEvent("enum.names.check", gt)
 	if len(gt.nameLookup) > 0 {
 		return gt.nameLookup
 	}
@@ -1070,6 +1073,7 @@ func (gt *Enum) getNameLookup() map[string]*EnumValueDefinition {
 	for _, value := range gt.Values() {
 		nameLookup[value.Name] = value
 	}
+	verifEvent("enum.names.publish", gt)
 	gt.nameLookup = nameLookup
 	return gt.nameLookup
 }
